@@ -14,7 +14,7 @@ Variable c : cfg.
 Variable conv : ty -> value -> option value.
 Variables bidir always : bool.
 Notation Good := (Good hatom udiff ops c conv bidir always).
-Notation GoodD := (GoodD conv bidir).
+Notation GoodD := (GoodD conv bidir always).
 Notation td := (to_delta conv bidir always ops).
 
 Hypothesis Hconv : forall ty0 v v', conv ty0 v = Some v' -> type_of v' = ty0.
@@ -29,10 +29,11 @@ Lemma caseA (tup : bool) xs ys q T1 T2 :
   GoodD (td T1 T2 (mutual (by_opcodes udiff nos (ops q xs ys) xs ys q q)) []) (length q) (sroot tup xs) (sroot tup ys).
 Proof.
   intros Ax Ay AF L [Tl HB] Len.
+  apply GoodD0_exact; [exact (ordfree_atoms tup xs Ax)|].
   destruct (by_opcodes udiff nos (ops q xs ys) xs ys q q) as [|e [|e2 es']] eqn:Ees; [| |cbn in Len; lia].
   - (* nothing reported: the sequences coincide *)
     pose proof (bo_nil udiff q xs ys Ax Ay AF _ 0 0 Tl HB Ees) as E0. cbn [skipn] in E0. subst ys.
-    apply good_empty. apply veqb_refl. apply wf_sroot. exact Ax.
+    split; [reflexivity|]. apply runs_inplace; try reflexivity. apply veqb_refl. apply wf_sroot. exact Ax.
   - destruct (bo_one udiff q xs ys Ax Ay AF _ 0 e Tl HB Ees) as (P & X & Y & Sx & Hx & Hy & Sh).
     cbn [skipn Nat.add] in Hx, Hy, Sh. subst xs ys.
     destruct Sh as [(x & -> & -> & ->)|[(y & -> & -> & ->)|(a & b & -> & -> & Hd)]].
@@ -82,6 +83,7 @@ Lemma caseC (tup : bool) xs ys q T1 T2 :
   GoodD (td T1 T2 (mutual (by_opcodes udiff nos (ops q xs ys) xs ys q q)) [q]) (length q) (sroot tup xs) (sroot tup ys).
 Proof.
   intros R1 R2 Ax Ay AF [Tl HB].
+  apply GoodD0_exact; [exact (ordfree_atoms tup xs Ax)|].
   set (os := ops q xs ys) in *. set (es := by_opcodes udiff nos os xs ys q q).
   destruct (bo_struct udiff q xs ys Ax Ay os 0 0 Tl) as (S1 & S2 & S3). fold es in S1, S2, S3.
   pose proof (mutual_ok q xs 0 (length xs) es S1) as MO.
@@ -140,6 +142,7 @@ Proof.
       cbn [fst snd]. destruct (pairs_leaf_go_list hatom udiff ops c q xs ys 0 Ax Ay) as [P1 P2]. rewrite P1.
       destruct tup.
       * destruct (GL_atoms hatom udiff ops c q xs ys 0 Ax Ay (L eq_refl)) as (S0 & HP & ND & HC).
+        apply GoodD0_exact; [exact (ordfree_atoms true xs Ax)|].
         apply seq_positional_good; try assumption. apply (L eq_refl).
       * cbn [sroot] in *.
         assert (EDL : to_delta conv bidir always ops T1 T2 (mutual (fst (GLa hatom udiff ops c q 0 xs ys))) []
@@ -151,7 +154,7 @@ Proof.
         -- intros k x y Hx Hy. pose proof (nth_error_In _ _ Hx) as Ix. pose proof (nth_error_In _ _ Hy) as Iy.
            eapply forallb_forall in Ax; [|exact Ix]. eapply forallb_forall in Ay; [|exact Iy].
            destruct x as [a| | | | |]; try discriminate. destruct y as [b| | | | |]; try discriminate.
-           apply Good_atom. intros _. apply tc_guard_atoms. exact Hconv.
+           apply Good_atom.
     + cbn [fst snd]. apply caseC; try assumption.
   - cbn [fst snd]. apply caseA; try assumption.
     apply Nat.ltb_ge in L1. exact L1.
